@@ -339,7 +339,7 @@ def cases(rng, tier, seed):
             out.append(Case('C07 cert %d %s %d - -' % (N, f2x(NW), K), r, 'dpss/certificates', meta=meta))
             continue
         v, e = r
-        if N <= (512 if big else 256):
+        if N <= (1024 if big else 256):
             out.append(Case('C07 cert %d %s %d %s %s' % (N, f2x(NW), K, flist(v.ravel()), flist(e)), 'ok',
                             'dpss/certificates', cmp=cmp_cert, meta=meta))
         flips = np.array([rng.choice([1.0, -1.0]) for _ in range(K)])
@@ -350,7 +350,7 @@ def cases(rng, tier, seed):
                 flips[k] = 1.0
         out.append(Case('C07 fixsigns %d %d %s' % (N, K, flist((v * flips[:, None]).ravel())), 'ok ' + flist(v.ravel()),
                         'dpss/signs', meta=dict(meta, flips=[float(f) for f in flips])))
-        if N <= 512:              # the model's autocorrelation sum is O(N^2)
+        if N <= 4096:             # the model's autocorrelation sum is O(N^2), allocation free
             k = rng.randrange(K)
             out.append(Case('C07 conc %d %s %s' % (N, f2x(NW), flist(v[k])), 'ok ' + flist([e[k]]), 'dpss/concentration',
                             cmp=cmp_two(1e-9), meta=dict(meta, k=k)))
@@ -363,7 +363,7 @@ def cases(rng, tier, seed):
             impl = 'ok %s %s' % (flist(r2[1]), flist(r2[1]))
         out.append(Case('C07 lowbias %s' % flist(e), impl, 'dpss/low_bias', meta=dict(meta, sub='lowbias')))
         # interpolation branch (linear) against the model, from the real short tapers
-        if 48 <= N <= 512 and 4 * NW < N // 2 and rng.random() < 0.5:
+        if 48 <= N <= 4096 and 4 * NW < N // 2 and rng.random() < 0.5:
             M = rng.randint(max(int(4 * NW) + 1, N // 4), N - 1)
             r3 = common.call(lambda: (dpss_call(M, NW, K), dpss_call(N, NW, K, interp_from=M)))
             if isinstance(r3, str):
@@ -507,6 +507,23 @@ def check_dpss(m, certs, case=None):
             if np.abs(top - e).max() > 1e-7:
                 return fail('dpss/kth-eigenvalue', '%s: returned concentrations %s are not the %d largest eigenvalues %s of the sinc kernel' % (
                     tag, e.tolist(), K, top.tolist()), rep, case)
+    # spectral-gap certificate for `inverse_iteration_step`: one solve with shift mu_k multiplies the component
+    # along eigenvector i by 1/(lambda_i - mu_k); convergence to taper k needs |lambda_k - mu_k| << |lambda_i - mu_k|
+    c('spectral_gap')
+    from scipy.linalg import eigvalsh_tridiagonal, eigvals_banded
+    nidx = np.arange(N, dtype='d')
+    dg = ((N - 1 - 2 * nidx) / 2.) ** 2 * np.cos(2 * np.pi * W)
+    od = nidx[1:] * (N - nidx[1:]) / 2.
+    lam = eigvalsh_tridiagonal(dg, od)[::-1]
+    ab = np.zeros((2, N))
+    ab[1] = dg
+    ab[0, 1:] = od
+    mu = eigvals_banded(ab, select='i', select_range=(N - K, N - 1))[::-1]
+    for k in range(K):
+        near = np.abs(lam[k] - mu[k])
+        others = np.abs(np.delete(lam, k) - mu[k]).min() if N > 1 else np.inf
+        if not near <= 1e-6 * others:
+            return fail('dpss/spectral-gap', '%s: shift for taper %d is not isolated: |lambda_k - mu| = %.3g, nearest other eigenvalue at %.3g' % (tag, k, near, others), rep, case)
     c('symmetry')
     sgn = np.array([1.0 if k % 2 == 0 else -1.0 for k in range(K)])[:, None]
     asym = np.abs(v[:, ::-1] - sgn * v).max()
@@ -528,6 +545,86 @@ def check_dpss(m, certs, case=None):
         return fail('dpss/reference', '%s: differs from scipy.signal.windows.dpss: tapers by %.3g, concentrations by %.3g' % (
             tag, dv, np.abs(e - rr).max()), rep, case)
     return None
+
+
+def robust(name, sd):
+    """second-wave classes: repeated calls with the same argument objects, input overwritten in place
+    between calls, strided / Fortran-ordered / transposed-view inputs, results not aliasing inputs or
+    earlier results.  Returns Failure or None."""
+    import nitime.utils as u
+    nr = np.random.RandomState(sd)
+    rep = {'kind': 'robust', 'name': name, 'sd': sd}
+
+    def bad(what):
+        return Failure('robust/' + name, 'robustness %s: %s' % (name, what), rep)
+    N = int(nr.choice([16, 33, 64, 101]))
+    NW = float(nr.choice([1.5, 2, 3]))
+    K = int(nr.randint(1, int(2 * NW) + 1))
+    if name == 'dpss/repeat':
+        v1, e1 = dpss_call(N, NW, K)
+        v1c, e1c = v1.copy(), e1.copy()
+        import nitime.utils as uu
+        va, ea = uu.dpss_windows(N, NW, K)
+        va *= -3.0                                  # scribble on a returned result
+        ea[:] = 7.0
+        v2, e2 = dpss_call(N, NW, K)
+        if not (np.array_equal(v2, v1c) and np.array_equal(e2, e1c)):
+            return bad('dpss_windows(%d, %s, %d) changed after a previously returned result was modified / on the second call' % (N, NW, K))
+        vi1 = dpss_call(4 * N, NW, K, interp_from=N)[0]
+        vi2 = dpss_call(4 * N, NW, K, interp_from=N)[0]
+        if not np.array_equal(vi1, vi2):
+            return bad('interpolated dpss_windows differs between two identical calls')
+        return None
+    if name == 'tapered/same-object':
+        s = nr.randn(3, N)
+        s0 = s.copy()
+        t1, l1 = u.tapered_spectra(s, (NW, K), low_bias=False)
+        if not np.array_equal(s, s0):
+            return bad('tapered_spectra modified its input')
+        t1 = np.array(t1)
+        t2, _ = u.tapered_spectra(s, (NW, K), low_bias=False)
+        if not np.allclose(t1, t2, rtol=0, atol=0):
+            return bad('tapered_spectra differs between two calls on the same array object')
+        s[:] = nr.randn(3, N)                       # overwrite the same object in place
+        t3, _ = u.tapered_spectra(s, (NW, K), low_bias=False)
+        t4, _ = u.tapered_spectra(s.copy(), (NW, K), low_bias=False)
+        if not np.allclose(t3, t4, rtol=1e-12, atol=1e-12 * np.abs(t4).max()):
+            return bad('tapered_spectra after overwriting the input array in place returns the result for the OLD contents')
+        return None
+    if name == 'tapered/layout':
+        s = nr.randn(3, N)
+        ref, _ = u.tapered_spectra(s.copy(), (NW, K), low_bias=False)
+        for lab, arr in (('fortran', np.asfortranarray(s)), ('transposed-view', np.ascontiguousarray(s.T).T),
+                         ('strided', np.repeat(s, 2, axis=1)[:, ::2])):
+            got, _ = u.tapered_spectra(arr, (NW, K), low_bias=False)
+            if not np.allclose(got, ref, rtol=1e-12, atol=1e-12 * np.abs(ref).max()):
+                return bad('tapered_spectra on a %s input differs from the C-contiguous result' % lab)
+        return None
+    if name.startswith('tridi/layout/'):
+        form = name.split('/')[-1]
+        fn = FORMS[form]()
+        if fn is None:
+            return None
+        d, e, b = gen_system(nr, False)
+        while not pivots_ok(d, e, b) or len(e) != len(b):
+            d, e, b = gen_system(nr, False)
+        ref = np.linalg.solve(np.diag(d) + np.diag(e[:-1], 1) + np.diag(e[:-1], -1), b)
+        dd, ee, bb = (np.repeat(a, 2)[::2] for a in (d, e, b))          # strided views
+        r = common.call(lambda: fn(dd, ee, bb, overwrite_b=False))
+        if isinstance(r, str):
+            return bad('%s tridisolve on strided views: %s' % (form, r))
+        if not np.allclose(r, ref, rtol=1e-7, atol=1e-9) or not (np.array_equal(dd, d) and np.array_equal(ee, e) and np.array_equal(bb, b)):
+            return bad('%s tridisolve on strided views: wrong solution or inputs modified' % form)
+        b2 = np.repeat(b, 2)
+        view = b2[::2]
+        r = common.call(lambda: fn(d.copy(), e.copy(), view))            # in place through a view
+        if isinstance(r, str) or not np.allclose(b2[::2], ref, rtol=1e-7, atol=1e-9) or not np.array_equal(b2[1::2], b):
+            return bad('%s tridisolve overwrite_b through a strided view: %s' % (form, r if isinstance(r, str) else 'solution not left in the view / neighbours touched'))
+        return None
+    return None
+
+
+ROBUST = ['dpss/repeat', 'tapered/same-object', 'tapered/layout', 'tridi/layout/compiled', 'tridi/layout/purepy', 'tridi/layout/rebuilt']
 
 
 def oracle(rng, tier, seed, focus, cases_=None):
@@ -569,7 +666,17 @@ def oracle(rng, tier, seed, focus, cases_=None):
         f = check_dpss({'kind': 'dpss', 'N': N, 'NW': NW, 'K': K, 'M': M, 'interp': kind}, certs)
         if f:
             fails.append(f)
-    stats = {'dpss_points_through_fallback': n_fb, 'tridisolve_dense_checks': n_t, 'tridisolve_exact_checks': n_q, 'dpss_points': n_d,
+    n_rb = 0
+    for name in ROBUST:
+        for i in range(6 if big else 2):
+            n_rb += 1
+            sd = rng.randint(0, 10**6)
+            r = common.call(lambda: robust(name, sd))
+            if isinstance(r, str):
+                fails.append(Failure('robust/%s/raises' % name, 'robustness %s raised: %s' % (name, r), {'kind': 'robust', 'name': name, 'sd': sd}))
+            elif r:
+                fails.append(r)
+    stats = {'robustness_experiments': n_rb, 'dpss_points_through_fallback': n_fb, 'tridisolve_dense_checks': n_t, 'tridisolve_exact_checks': n_q, 'dpss_points': n_d,
              'certificate_checks': certs, 'certificate_checks_total': sum(certs.values()),
              'skipped_ill_conditioned': getattr(cases, 'skipped_ill_conditioned', 0), 'failed': len(fails),
              'rebuilt_so': 'ok' if _forms.get('rebuilt') else _forms.get('rebuilt_err', 'not built')}
@@ -584,4 +691,9 @@ def replay(d):
         return check_tridiq(d)
     if k == 'dpss':
         return check_dpss(d, {})
+    if k == 'robust':
+        r = common.call(lambda: robust(d['name'], d['sd']))
+        if isinstance(r, str):
+            return Failure('robust/%s/raises' % d['name'], r, d)
+        return r
     return None
